@@ -28,7 +28,7 @@ def alt(l):
 # (what the property talks about), only_impl_ok = tags compared only when the implementation is the more
 # permissive side (for "only if" statements).
 PROPS = {
-    'C01': dict(level='proof', scenarios=[('attest', 1500, 20000, ''), ('history', 2500, 20000, 'recv'), ('attesters', 800, 8000, '')],
+    'C01': dict(level='proof', scenarios=[('attest', 1500, 20000, ''), ('history', 2500, 20000, 'recv'), ('attesters', 800, 8000, ''), ('selftest', 600, 6000, '')],
                 tags=[r'^verify$', r'^tx:(ReceiveMessage|ReplaceMessage|ReplaceDepositForBurn):out$',
                       # "currently enabled attester" / "threshold" are what the enable / disable / threshold transactions left in the store
                       r'^tx:(EnableAttester|DisableAttester|UpdateSignatureThreshold):out$',
@@ -95,7 +95,7 @@ PROPS = {
                 ops=[('tx', None), ('query', None)],
                 explanation='see DESIGN.md C18: determinism is shown by agreement of every replay with the (functional) Lean model plus replay-vs-replay comparison of app hash, responses and events; scheduler/map-order effects are explored, not proved'),
     'C19': dict(level='proof', scenarios=[('registry', 3000, 40000, ''), ('history', 2500, 20000, 'query'), ('bulk', 300, 3000, ''), ('selftest', 300, 3000, '')],
-                tags=[r'^query:.*$', r'^key$', r'^store:(Attester|PerMessageBurnLimit|TokenPair|RemoteTokenMessenger|UsedNonce)$',
+                tags=[r'^query:.*$', r'^key$', r'^ext:tokenPadded$', r'^store:(Attester|PerMessageBurnLimit|TokenPair|RemoteTokenMessenger|UsedNonce)$',
                       r'^tx:(EnableAttester|DisableAttester|LinkTokenPair|UnlinkTokenPair|AddRemoteTokenMessenger|RemoveRemoteTokenMessenger|SetMaxBurnAmountPerMessage):out$'],
                 ops=[('query', None), ('key', '')]),
     'C20': dict(level='proof', scenarios=[('crash', 3000, 40000, ''), ('history', 2500, 20000, ''), ('codec', 1000, 10000, ''), ('selftest', 500, 5000, '')],
@@ -273,6 +273,9 @@ def mismatch_tags(d, ops, impl, model):
                 tags.add('genesis-export:' + k)
     else:
         tags.add(kind)
+        if kind == 'ext':
+            m = re.search(r' fn=(\S+)', ops[i])
+            tags.add('ext:' + (m.group(1) if m else '?'))
         if 'panic' in (O.parse_fields(impl[i]).get('out'), O.parse_fields(model[i]).get('out')):
             tags.add('panic')
     return tags
